@@ -120,3 +120,42 @@ Proof.
   exists [SrcSet 0 [1;2;3]%N; SrcSet 1 [7;8]%N; FromSrc 0 KFixed 0; MkFView 1 0 1 2; AssignSrc 0 1], 1.
   eexists. vm_compute. split; [reflexivity | split; [reflexivity | left; reflexivity]].
 Qed.
+
+(* ------------------------------------------------------------ accessors return the source cell *)
+Lemma read_cell_shift h p b off i j : p = Some (b, off) -> read_cell h (Some (b, off + i)) j = read_cell h p (i + j).
+Proof. intro E. subst p. unfold read_cell. rewrite Nat.add_assoc. reflexivity. Qed.
+
+(* operator[](i), at(i), *(begin()+i), *(data()+i) denote the SAME location arr_loc a i = cell off+i of the designated
+   buffer, whatever the heap holds: the location depends on the wrapper only (it is stable across any number of further
+   accessor calls, which change nothing), and reading through a reference held to it in ANY later heap h' gives what
+   operator[](i) gives in h' (the reference follows the source) *)
+Lemma accessor_loc_lemma a i :
+  (forall h, arr_index h a i = read_loc h (arr_loc a i)) /\
+  (forall h, i < a_len a -> arr_at h a i = ORet (read_loc h (arr_loc a i))) /\
+  (forall h, i < a_len a -> nth_error (arr_iter h a) i = Some (read_loc h (arr_loc a i))) /\
+  (forall off b, a_ptr a = Some (b, off) -> arr_loc a i = Some (b, off + i)) /\
+  (a_ptr a = None -> arr_loc a i = None).
+Proof.
+  assert (E : forall h, arr_index h a i = read_loc h (arr_loc a i)).
+  { intro h. unfold arr_index, read_loc, arr_loc. destruct (a_ptr a) as [[b off]|] eqn:P; [|reflexivity].
+    rewrite (read_cell_shift h (Some (b, off)) b off i 0 eq_refl). rewrite Nat.add_0_r. reflexivity. }
+  split; [exact E|]. split.
+  - intros h L. rewrite at_is_index by exact L. rewrite E. reflexivity.
+  - split.
+    + intros h L. rewrite iter_nth by exact L. rewrite E. reflexivity.
+    + split.
+      * intros off b P. unfold arr_loc. rewrite P. reflexivity.
+      * intro P. unfold arr_loc. rewrite P. reflexivity.
+Qed.
+
+(* DataView::operator[](i) returns the location of byte i*stride of the wrapped range; the sizeof(T) bytes read are the
+   ones at that location, in any heap *)
+Lemma dv_loc_lemma d sz i :
+  (forall h, dv_index h d sz i = map (fun j => read_cell h (dv_loc d i) j) (seq 0 sz)) /\
+  (forall b off, d_ptr d = Some (b, off) -> dv_loc d i = Some (b, off + i * d_stride d)).
+Proof.
+  split.
+  - intro h. unfold dv_index, dv_loc. destruct (d_ptr d) as [[b off]|] eqn:P; [|reflexivity].
+    apply map_ext. intro j. symmetry. apply (read_cell_shift h (Some (b, off)) b off (i * d_stride d) j eq_refl).
+  - intros b off P. unfold dv_loc. rewrite P. reflexivity.
+Qed.
